@@ -33,7 +33,7 @@ type c12Spec struct {
 	Sched string `json:"sched,omitempty"` // none | perturb | reverse
 }
 
-var c12Shapes = []string{"ctx-reuse", "small-alphabet", "dupseg", "phase-shift", "edited", "periodic", "random", "reversed", "new<<old", "old<<new", "new-empty", "old-empty", "old<parts", "new<parts", "big-edited"}
+var c12Shapes = []string{"ctx-reuse", "shuffled-pieces", "small-alphabet", "dupseg", "phase-shift", "edited", "periodic", "random", "reversed", "new<<old", "old<<new", "new-empty", "old-empty", "old<parts", "new<parts", "big-edited"}
 
 func c12Cases(tier string, seed uint64, flavor string) []lib.Case {
 	var cases []lib.Case
@@ -320,6 +320,21 @@ func c12Rand(s c12Spec, res *lib.Result) {
 		return b
 	}
 	switch s.Shape {
+	case "shuffled-pieces": // far more matches per scanner block than a worker's result channel holds
+		old = mk(r.PickInt([]int{300000, 768 * 1024}))
+		piece := r.PickInt([]int{96, 192, 300})
+		var pieces [][]byte
+		for off := 0; off < len(old); off += piece {
+			e := off + piece
+			if e > len(old) {
+				e = len(old)
+			}
+			pieces = append(pieces, old[off:e])
+		}
+		r.Shuffle(len(pieces), func(i, j int) { pieces[i], pieces[j] = pieces[j], pieces[i] })
+		for _, pc := range pieces {
+			nw = append(nw, pc...)
+		}
 	case "small-alphabet": // self-similar input over 2-3 letters, far longer than the exhaustive part reaches
 		old = smallAlpha(r.PickInt([]int{10, 30, 69, 200, 1000, 5000}), r.Range(2, 3))
 		nw = editCopy(old)
@@ -344,6 +359,9 @@ func c12Rand(s c12Spec, res *lib.Result) {
 		old = make([]byte, n)
 		for i := range old {
 			old[i] = pat[i%per]
+		}
+		if per >= n {
+			per = n - 1
 		}
 		nw = append(append([]byte(nil), old[r.Range(1, per):]...), old[:r.Range(0, per)]...)
 		for k := 0; k < r.Range(0, 5); k++ {
